@@ -936,22 +936,35 @@ fn coq_call(c: &Call) -> String {
         coq_bool(c.exec)
     )
 }
-fn coq_ccase(prefix: &[Op], calls: &[Call], schedule: &[u64], expect: &[u64]) -> String {
+/// what one actor thread does: one public call, or a client appending messages meanwhile
+#[derive(Clone, Debug)]
+enum Spec {
+    Call(Call),
+    Msgs(Vec<(u64, u64)>),
+}
+fn coq_spec(x: &Spec) -> String {
+    match x {
+        Spec::Call(c) => format!("SCall {}", coq_call(c)),
+        Spec::Msgs(ms) => format!("SMsgs {}", coq_list(ms, |(a, c)| format!("({a}, {c})"))),
+    }
+}
+fn coq_ccase(prefix: &[Op], calls: &[Spec], schedule: &[u64], expect: &[u64]) -> String {
     format!(
         "{{| cc_consts := real_consts; cc_prefix := {}; cc_calls := {}; cc_schedule := {}; cc_expect := {} |}}",
         coq_list(prefix, coq_op),
-        coq_list(calls, coq_call),
+        coq_list(calls, coq_spec),
         coq_list_n(schedule),
         coq_list_n(expect)
     )
 }
-fn ccase_json(prefix: &[Op], calls: &[Call], schedule: &[u64]) -> Value {
+fn ccase_json(prefix: &[Op], calls: &[Spec], schedule: &[u64]) -> Value {
     json!({ "prefix": prefix.iter().map(|o| format!("{o:?}")).collect::<Vec<_>>(), "calls": calls.iter().map(|c| format!("{c:?}")).collect::<Vec<_>>(), "schedule": schedule })
 }
 
 enum Resp {
     Sched(Result<ripd::CompactionAutoScheduleV1Response, String>),
     Auto(Result<ripd::CompactionAutoV1Response, String>),
+    Msgs,
 }
 
 struct ConcRun {
@@ -1011,7 +1024,7 @@ fn apply_prefix(w: &mut World, ops: &[Op]) {
 /// Runs the calls on actor threads under the controlled scheduler.  A scheduling quantum of an actor is: the
 /// append it is parked in front of (cont.before_lock .. cont.advanced, run without interruption) followed by
 /// everything it does up to its next park in front of the seq mutex (or its end).  `fixed` replays a schedule.
-fn run_conc(prefix: &[Op], calls: &[Call], seed: u64, fixed: Option<&[u64]>) -> ConcRun {
+fn run_conc(prefix: &[Op], calls: &[Spec], seed: u64, fixed: Option<&[u64]>) -> ConcRun {
     use rv::sched::Sched;
     let mut w = World::new("c09c");
     apply_prefix(&mut w, prefix);
@@ -1022,12 +1035,29 @@ fn run_conc(prefix: &[Op], calls: &[Call], seed: u64, fixed: Option<&[u64]>) -> 
     sc.install();
     let resps: Arc<std::sync::Mutex<Vec<Option<Resp>>>> = Arc::new(std::sync::Mutex::new((0..calls.len()).map(|_| None).collect()));
     let mut handles = vec![];
+    for x in calls {
+        if let Spec::Msgs(ms) = x {
+            for (_, content) in ms {
+                w.contents.insert(content_text(*content), *content);
+            }
+        }
+    }
     for (i, c) in calls.iter().enumerate() {
         let store = w.store.clone();
         let tid = w.tid.clone();
         let c = c.clone();
         let resps = resps.clone();
         handles.push(sc.spawn(i, move || {
+            let c = match c {
+                Spec::Call(c) => c,
+                Spec::Msgs(ms) => {
+                    for (actor, content) in ms {
+                        store.append_message(&tid, format!("actor{actor}"), "test".into(), content_text(content)).unwrap();
+                    }
+                    resps.lock().unwrap()[i] = Some(Resp::Msgs);
+                    return;
+                }
+            };
             let r = if c.sched {
                 Resp::Sched(store.compaction_auto_schedule_v1(
                     &tid,
@@ -1090,6 +1120,7 @@ fn run_conc(prefix: &[Op], calls: &[Call], seed: u64, fixed: Option<&[u64]>) -> 
     for (i, r) in rs.iter().enumerate() {
         match r {
             None => obs.push(0),
+            Some(Resp::Msgs) => obs.push(1),
             Some(Resp::Sched(Err(e))) | Some(Resp::Auto(Err(e))) => {
                 obs.extend([1, 99]);
                 viol.push(Viol { what: format!("concurrent call {i} failed: {e}"), class: "unexpected_error".into() });
@@ -1132,7 +1163,7 @@ fn run_conc(prefix: &[Op], calls: &[Call], seed: u64, fixed: Option<&[u64]>) -> 
         }
     }
     // replay safety: after the race the queries still answer from truth, with and without caches
-    for stride in calls.iter().map(|c| c.stride).collect::<std::collections::BTreeSet<u64>>() {
+    for stride in calls.iter().filter_map(|c| if let Spec::Call(c) = c { Some(c.stride) } else { None }).collect::<std::collections::BTreeSet<u64>>() {
         let req = CompactionCutPointsV1Request { stride_messages: Some(stride), limit: Some(32) };
         let r = w.store.compaction_cut_points_v1(&w.tid, req.clone());
         match &r {
@@ -1172,7 +1203,7 @@ fn run_conc(prefix: &[Op], calls: &[Call], seed: u64, fixed: Option<&[u64]>) -> 
     ConcRun { obs, texts, schedule, viol, inconclusive, jobs, ckpts, dup_ckpts: ckpts - tos.len() }
 }
 
-fn gen_conc(r: &mut Rng) -> (Vec<Op>, Vec<Call>) {
+fn gen_conc(r: &mut Rng) -> (Vec<Op>, Vec<Spec>) {
     let stride = *r.pick(&[1u64, 2, 2, 3]);
     let mut prefix = vec![];
     let n = r.range(2, 11);
@@ -1191,7 +1222,14 @@ fn gen_conc(r: &mut Rng) -> (Vec<Op>, Vec<Call>) {
     let k = 2 + r.below(2) as usize;
     let mut calls = vec![];
     for _ in 0..k {
-        calls.push(Call { sched: r.below(3) != 0, stride: if r.below(5) == 0 { *r.pick(&[1u64, 2, 3]) } else { stride }, maxnew: *r.pick(&[1u64, 1, 2, 32]), block: r.below(4) != 0, exec: r.below(5) != 0 });
+        calls.push(Spec::Call(Call { sched: r.below(3) != 0, stride: if r.below(5) == 0 { *r.pick(&[1u64, 2, 3]) } else { stride }, maxnew: *r.pick(&[1u64, 1, 2, 32]), block: r.below(4) != 0, exec: r.below(5) != 0 }));
+    }
+    if r.below(2) == 0 {
+        // a client keeps appending messages while the calls run
+        let n = r.range(1, 6);
+        let ms = (0..n).map(|_| (r.below(2), r.below(40))).collect();
+        let at = r.below(calls.len() as u64 + 1) as usize;
+        calls.insert(at, Spec::Msgs(ms));
     }
     (prefix, calls)
 }
@@ -1394,6 +1432,9 @@ fn main() {
                 res.bump_by("concurrent_duplicate_checkpoints", r1.dup_ckpts as u64);
                 if r1.jobs >= 2 {
                     res.bump("concurrent_cases_with_2+_jobs");
+                }
+                if calls.iter().any(|c| matches!(c, Spec::Msgs(_))) {
+                    res.bump("concurrent_cases_with_message_appender");
                 }
                 let mut viol = r1.viol;
                 if let Some(r2) = r2 {
